@@ -268,7 +268,12 @@ pub fn check_select(sys: &SelSys, spec: &SelSpec) -> Vec<Fail> {
     };
     let regrouped = DID_REGROUP.with(|c| c.get());
     EXECUTED.inc();
-    let ordered = !spec.orders.is_empty();
+    if spec.order_is_arbitrary() && (spec.limit.is_some() || spec.offset.is_some()) {
+        // which rows survive LIMIT depends on an arbitrary order: nothing to compare
+        SKIPPED.inc();
+        return vec![];
+    }
+    let ordered = !spec.orders.is_empty() && !spec.order_is_arbitrary();
     let mut results = vec![];
     for (i, t) in texts.iter().enumerate() {
         match with_db(|db| db.query(t, &[])) {
